@@ -168,13 +168,22 @@ func term(in Input, o Obs) string {
 	}
 	pv := map[string]string{"map_db": "PVMapDb", "map_field": "PVMapField", "struct": "PVStruct", "": "PVMapDb"}[in.PayVia]
 	op := lib.App("mk_op", kind, gTy(in.Type), gShape(in.Shape), gRecs(in.Recs), assocs,
-		lib.Bool(in.Skip), txm, gInts(in.Fails), gInts(in.Sets), setkey, lib.Z(in.Pay), pv, lib.Z(in.Limit), lib.ListOf(in.Seed, gRow))
+		lib.Bool(in.Skip), txm, gInts(in.Fails), gInts(in.Sets), setkey, lib.Z(in.Pay), pv, lib.Z(in.Limit), lib.ListOf(in.Seed, gRow),
+		lib.App("mk_opts", lib.Bool(in.SetAll), lib.Z(int64(in.DelAssoc)), lib.Bool(in.Preload)))
 	mem := []string{}
 	for _, t := range loadedTags(in, o) {
 		mem = append(mem, lib.Z(t))
 	}
 	return lib.App("mk_case", op, lib.ListOf(o.Trace, gTEv), lib.ListOf(o.Errs, gErr), lib.Bool(o.ErrIsLast),
-		lib.ListOf(o.After, gRow), lib.List(mem), lib.Bool(o.Panic != ""))
+		lib.ListOf(o.After, gRow), lib.List(mem), lib.ZList(kidsOfLoaded(in, o, o.Kids)), lib.ZList(kidsOfLoaded(in, o, o.Pets)), lib.Bool(o.Panic != ""))
+}
+
+// kidsOfLoaded: association values only count for queries with Preload
+func kidsOfLoaded(in Input, o Obs, tags []int64) []int64 {
+	if !in.Preload || (in.Op != "find" && in.Op != "first") {
+		return []int64{}
+	}
+	return tags
 }
 
 // loadedTags: query operations: the records the query loaded (the first RowsAffected in-memory ones);
@@ -266,9 +275,28 @@ func isStruct(sh string) bool { return strings.HasSuffix(sh, "struct") }
 func (g *gen) seed(n int) []Row {
 	out := []Row{}
 	for i := 1; i <= n; i++ {
-		out = append(out, Row{"recs", int64(i), int64(i), int64(10 * i)})
+		out = append(out, Row{Tbl: "recs", ID: int64(i), Tag: int64(i), Val: int64(10 * i)})
 	}
 	return out
+}
+
+// seedKids adds has-many rows owned by the seeded records 1..n (tag = owner*1000 + j: the model reads the
+// owner off the tag): kids j = 1..2, pets j = 501
+func seedKids(rows []Row, n int) []Row {
+	id := int64(0)
+	for i := 1; i <= n; i++ {
+		for j := 1; j <= 1+i%2; j++ {
+			id++
+			rows = append(rows, Row{Tbl: "kids", ID: id, Tag: int64(i*1000 + j), Val: int64(j), Owner: int64(i)})
+		}
+	}
+	for i := 1; i <= n; i++ {
+		if i%3 != 0 {
+			id++
+			rows = append(rows, Row{Tbl: "pets", ID: id, Tag: int64(i*1000 + 501), Val: 5, Owner: int64(i)})
+		}
+	}
+	return rows
 }
 
 func (g *gen) input(edge bool) Input {
@@ -276,7 +304,7 @@ func (g *gen) input(edge bool) Input {
 	g.nextTag = 100
 	in := Input{TxMode: "default", PayVia: "map_db", SetKey: "db", Pay: int64(r.Range(50, 99))}
 	in.Op = lib.Pick(r, []string{"create", "create", "create", "create_in_batches", "create_in_batches", "save", "save", "update", "updates", "updates", "update_column", "update_columns", "delete", "delete", "find", "find", "first"})
-	in.Type = lib.Pick(r, []string{"T1", "T1", "T1", "T2", "T2", "T0", "T3", "T4", "T5", "T6", "T7", "T8", "T9", "T10", "T11"})
+	in.Type = lib.Pick(r, []string{"T1", "T1", "T1", "T2", "T2", "T0", "T3", "T4", "T5", "T6", "T7", "T8", "T9", "T10", "T11", "T12"})
 	nseed := r.Range(0, 5)
 	if in.Op != "create" && r.Chance(4, 5) {
 		nseed = r.Range(2, 5)
@@ -420,6 +448,47 @@ func (g *gen) input(edge bool) Input {
 		in.PayVia = lib.Pick(r, []string{"map_db", "map_field"})
 	}
 	in.SetKey = lib.Pick(r, []string{"field", "field", "db"})
+	ptrShape := strings.HasPrefix(in.Shape, "ptr_")
+	switch in.Op {
+	case "find", "first":
+		if r.Chance(1, 2) {
+			in.Preload = true
+			in.Seed = seedKids(in.Seed, nseed)
+		}
+	case "delete":
+		if len(in.Recs) > 0 && in.Shape != "struct" && in.Shape != "array_val" && r.Chance(2, 5) {
+			in.DelAssoc = r.Range(1, 2)
+			in.Seed = seedKids(in.Seed, nseed)
+		}
+		in.Returning = ptrShape && r.Chance(1, 4)
+	case "update", "updates", "update_column", "update_columns":
+		in.Returning = ptrShape && r.Chance(1, 4)
+	case "create", "save":
+		noAssoc := true
+		for _, rc := range in.Recs {
+			if rc.Boss != nil || rc.BossIx > 0 || len(rc.Kids) > 0 || len(rc.Pets) > 0 {
+				noAssoc = false
+			}
+		}
+		if noAssoc && !isStruct(in.Shape) && in.Shape != "array_val" && r.Chance(1, 5) {
+			in.SetAll = true
+		}
+	}
+	if in.Returning {
+		// with RETURNING gorm scans the returned rows back INTO the model value (a slice is rebuilt from
+		// them): the in-memory records stay the same set in the same order only when every record has
+		// its row and the records are in key order; arrays and by-value shapes are left out
+		ok := in.Shape == "ptr_struct" || in.Shape == "ptr_slice_val" || in.Shape == "ptr_slice_ptr"
+		last := int64(0)
+		for _, rc := range in.Recs {
+			if rc.ID <= last || rc.ID > int64(nseed) {
+				ok = false
+			}
+			last = rc.ID
+		}
+		in.Returning = ok
+	}
+	in.NoReturning = !in.Returning && r.Chance(1, 4)
 	in.Skip = r.Chance(1, 8)
 	if in.Shape == "array_val" || (in.Shape == "struct" && (in.Op == "create" || in.Op == "save")) {
 		in.Skip = false
@@ -448,20 +517,28 @@ func shapeOf(in Input) string {
 func main() {
 	a := lib.ParseArgs()
 	wn := 0
-	open := func() *World {
+	open := func(noRet bool) *World {
 		wn++
-		return OpenWorld(fmt.Sprintf("file:c13_%d_%d?mode=memory&cache=shared", os.Getpid(), wn))
+		return OpenWorld(fmt.Sprintf("file:c13_%d_%d?mode=memory&cache=shared", os.Getpid(), wn), noRet)
 	}
-	w := open()
+	w := open(false)
+	wNoRet := open(true) // the dialector believes SQLite cannot RETURNING: Exec + LastInsertId
 	keylessSavedOnce = probeKeyless(w)
 	out := lib.NewOut(a.Out, "C13")
 	out.Extra["keyless_shared_belongs_to_saved_once"] = keylessSavedOnce
 	out.PerFile = 150
 
 	runOne := func(in Input) Obs {
+		if in.NoReturning {
+			o := wNoRet.Run(in)
+			if o.Panic != "" {
+				wNoRet = open(true)
+			}
+			return o
+		}
 		o := w.Run(in)
 		if o.Panic != "" {
-			w = open() // a panic inside gorm leaves its transaction open
+			w = open(false) // a panic inside gorm leaves its transaction open
 		}
 		return o
 	}
@@ -526,7 +603,7 @@ func main() {
 
 	g := &gen{r: lib.NewRng(a.Seed)}
 	r := g.r
-	budget := 850
+	budget := 1000
 	if a.Tier == "thorough" {
 		budget = 5000
 	}
@@ -607,6 +684,15 @@ func main() {
 					{Op: "updates", Type: ty, Shape: "ptr_slice_ptr", Recs: []RecIn{{ID: 1, Tag: 1, Val: 10}, {ID: 3, Tag: 3, Val: 30}}, Seed: g.seed(3), Pay: 62, PayVia: "map_field"},
 					{Op: "delete", Type: ty, Shape: "slice_val", Recs: []RecIn{{ID: 2, Tag: 2, Val: 20}, {ID: 3, Tag: 3, Val: 30}}, Seed: g.seed(4)},
 					{Op: "find", Type: ty, Shape: "ptr_slice_ptr", Seed: g.seed(3), Limit: 2},
+					{Op: "find", Type: ty, Shape: "ptr_slice_val", Seed: seedKids(g.seed(4), 4), Limit: 3, Preload: true},
+					{Op: "first", Type: ty, Shape: "ptr_struct", Seed: seedKids(g.seed(3), 3), Limit: 2, Preload: true},
+					{Op: "delete", Type: ty, Shape: "ptr_slice_val", Recs: []RecIn{{ID: 1, Tag: 1, Val: 10}, {ID: 2, Tag: 2, Val: 20}}, Seed: seedKids(g.seed(3), 3), DelAssoc: 1},
+					{Op: "delete", Type: ty, Shape: "ptr_struct", Recs: []RecIn{{ID: 2, Tag: 2, Val: 20}}, Seed: seedKids(g.seed(3), 3), DelAssoc: 2, Returning: true},
+					{Op: "updates", Type: ty, Shape: "ptr_slice_val", Recs: []RecIn{{ID: 1, Tag: 1, Val: 10}, {ID: 2, Tag: 2, Val: 20}}, Seed: g.seed(3), Pay: 63, PayVia: "map_db", Returning: true},
+					{Op: "create", Type: ty, Shape: "ptr_slice_ptr", Recs: []RecIn{{Tag: 101, Val: 1}, {Tag: 102, Val: 2}}, NoReturning: true},
+					{Op: "create", Type: ty, Shape: "ptr_slice_val", Recs: []RecIn{{Tag: 101, Val: 1}, {Tag: 102, Val: 2}, {Tag: 103, Val: 3}}, SetAll: true, Sets: []int{0, 3}},
+					{Op: "updates", Type: ty, Shape: "struct", Recs: []RecIn{{ID: 1, Tag: 1, Val: 10}}, Seed: g.seed(2), Pay: 64, PayVia: "map_db"},
+					{Op: "delete", Type: ty, Shape: "struct", Recs: []RecIn{{ID: 1, Tag: 1, Val: 10}}, Seed: g.seed(2)},
 				}
 				for _, in := range d {
 					in.Skip, in.TxMode = sk, txm
@@ -657,7 +743,7 @@ func main() {
 	if a.Tier == "thorough" {
 		// bounded-exhaustive sweep: every type x in-domain shape x n in 0..6 x operation, no faults,
 		// then a failure at every invocation for n <= 3
-		for _, ti := range typeList[:12] {
+		for _, ti := range typeList[:13] {
 			for _, sh := range []string{"ptr_struct", "ptr_slice_val", "slice_val", "ptr_slice_ptr", "slice_ptr", "ptr_array_val", "ptr_array_ptr", "array_ptr"} {
 				for n := 0; n <= 6; n++ {
 					if isStruct(sh) && n != 1 {
@@ -681,6 +767,6 @@ func main() {
 			}
 		}
 	}
-	out.Extra["rule"] = "cases = operation {Create, CreateInBatches (every relation of length to batch size), Save, Update, Updates(map by column / by field name / struct), UpdateColumn(s), Delete, Find, First} x 12 model types (hook presence x pointer/value receivers, incl. none and mixed) x argument shape {*T, T, []T, *[]T, []*T, *[]*T, *[n]T, [n]T, *[n]*T, [n]*T} x 0..6 records x has-many/belongs-to values with hooks of their own (incl. one keyed belongs-to record shared by several owners of a slice) x SkipHooks x {default transaction, explicit outer transaction, SkipDefaultTransaction} x failure injected at one or two hook invocations (plain errors and errors wrapping gorm's sentinel errors ErrRecordNotFound / ErrInvalidTransaction / ErrMissingWhereClause / ErrInvalidValue / ErrEmptySlice / ErrInvalidData) x SetColumn from before-hooks; distinct = distinct (op,type,shape,n,associations,skip,txmode,fails,sets,payload form) tuples; non-trivial = at least 2 hook invocations observed and (a failing invocation was reached, or more than one record, or a SetColumn call)"
+	out.Extra["rule"] = "cases = operation {Create, CreateInBatches (every relation of length to batch size), Save, Update, Updates(map by column / by field name / struct), UpdateColumn(s), Delete, Find, First} x 12 model types (hook presence x pointer/value receivers, incl. none and mixed) x argument shape {*T, T, []T, *[]T, []*T, *[]*T, *[n]T, [n]T, *[n]*T, [n]*T} x 0..6 records x has-many/belongs-to values with hooks of their own (incl. one keyed belongs-to record shared by several owners of a slice) x SkipHooks x {default transaction, explicit outer transaction, SkipDefaultTransaction} x failure injected at one or two hook invocations (plain errors and errors wrapping gorm's sentinel errors ErrRecordNotFound / ErrInvalidTransaction / ErrMissingWhereClause / ErrInvalidValue / ErrEmptySlice / ErrInvalidData) x SetColumn from before-hooks (per record and, with the fromCallbacks flag, for every record of a slice) x RETURNING / no-RETURNING dialect capability x Clauses(Returning) on update/delete x Delete with Select(has-many) x Find/First with Preload of has-many values carrying AfterFind hooks x a type whose hook methods have the wrong signature; distinct = distinct (op,type,shape,n,associations,skip,txmode,fails,sets,payload form) tuples; non-trivial = at least 2 hook invocations observed and (a failing invocation was reached, or more than one record, or a SetColumn call)"
 	lib.Must(out.Flush())
 }
